@@ -192,6 +192,24 @@ Proof.
   cbn [fold_left]. apply IH; [|assumption]. unfold add_cookie. apply in_hset; assumption.
 Qed.
 
+Lemma in_merge_headers_client rh ch x : In x ch -> is_nil (hvals rh (fst x)) = true ->
+  In x (merge_headers rh ch).
+Proof.
+  intros Hin Hn. unfold merge_headers. apply in_app_iff. right. apply filter_In. split; assumption.
+Qed.
+
+Lemma bad_in_merged_rejected mc a x :
+  In x (merge_headers (a_rhdr a) (a_chdr a)) -> bad_entry x = true ->
+  fst x <> content_type -> fst x <> bs "Cookie" ->
+  forall q, to_creq_gen mc a <> Sent q.
+Proof.
+  intros Hin Hbad Hct Hck q. unfold to_creq_gen.
+  destruct (parse_request_url _ _ _ _ _ _); try discriminate.
+  destruct (negb (forallb valid_cookie (a_rck a ++ a_cck a))); [discriminate|].
+  rewrite (valid_headers_bad _ x); [discriminate| |assumption].
+  apply in_add_cookies; [|assumption]. apply in_body_headers; assumption.
+Qed.
+
 (* a request-level header entry with an invalid name, or holding a value with a control byte other
    than TAB (CR, LF, NUL ...), makes the call fail before anything is written - on every protocol *)
 Theorem unsafe_header_rejected : forall a x,
@@ -199,12 +217,72 @@ Theorem unsafe_header_rejected : forall a x,
   fst x <> content_type -> fst x <> bs "Cookie" ->
   forall q, to_creq a <> Sent q.
 Proof.
-  intros a x Hin Hne Hbad Hct Hck q. unfold to_creq.
-  destruct (parse_request_url _ _ _ _ _ _); try discriminate.
-  destruct (negb (forallb valid_cookie (a_rck a ++ a_cck a))); [discriminate|].
-  rewrite (valid_headers_bad _ x); [discriminate| |assumption].
-  apply in_add_cookies; [|assumption]. apply in_body_headers; [|assumption].
+  intros a x Hin Hne Hbad Hct Hck q. apply (bad_in_merged_rejected true a x); try assumption.
   apply in_merge_headers; assumption.
+Qed.
+
+(* the same for a client-level entry that is in force (the request has no value under that key) *)
+Theorem unsafe_client_header_rejected : forall a x,
+  In x (a_chdr a) -> is_nil (hvals (a_rhdr a) (fst x)) = true -> bad_entry x = true ->
+  fst x <> content_type -> fst x <> bs "Cookie" ->
+  forall q, to_creq a <> Sent q.
+Proof.
+  intros a x Hin Hn Hbad Hct Hck q. apply (bad_in_merged_rejected true a x); try assumption.
+  apply in_merge_headers_client; assumption.
+Qed.
+
+(* ... so nothing reaches the HPACK / QPACK encoders either *)
+Lemma fields_not_sent lines mc a : (forall q, to_creq_gen mc a <> Sent q) ->
+  forall ls, fields_h23 lines mc a <> Sent ls.
+Proof.
+  intros H ls. unfold fields_h23. destruct (to_creq_gen mc a) as [q| |]; try discriminate.
+  exfalso. apply (H q). reflexivity.
+Qed.
+
+Theorem unsafe_header_rejected_h23 : forall a x,
+  (In x (a_rhdr a) /\ snd x <> [] \/ In x (a_chdr a) /\ is_nil (hvals (a_rhdr a) (fst x)) = true) ->
+  bad_entry x = true -> fst x <> content_type -> fst x <> bs "Cookie" ->
+  forall ls, fields_h2 a <> Sent ls /\ fields_h3 a <> Sent ls.
+Proof.
+  intros a x Hin Hbad Hct Hck ls.
+  assert (H : forall q, to_creq_gen true a <> Sent q).
+  { intros q. apply (bad_in_merged_rejected true a x); try assumption.
+    destruct Hin as [[Hin Hne]|[Hin Hn]]; [apply in_merge_headers|apply in_merge_headers_client]; assumption. }
+  split; apply fields_not_sent; exact H.
+Qed.
+
+(* a method that is not a token reaches no writer, on any protocol *)
+Theorem unsafe_method_rejected_all : forall a, valid_method (a_method a) = false ->
+  (forall q, to_creq a <> Sent q) /\
+  (forall ls, fields_h2 a <> Sent ls) /\ (forall ls, fields_h3 a <> Sent ls).
+Proof.
+  intros a Hm.
+  assert (H : forall q, to_creq_gen true a <> Sent q).
+  { intros q. unfold to_creq_gen. destruct (parse_request_url _ _ _ _ _ _); try discriminate.
+    destruct (negb (forallb valid_cookie _)); [discriminate|].
+    destruct (negb (valid_headers _)); [discriminate|].
+    destruct (is_nil (a_method a)); [discriminate|]. rewrite Hm. discriminate. }
+  split; [exact H|]. split; apply fields_not_sent; exact H.
+Qed.
+
+(* HTTP/2 and HTTP/3 refuse an invalid Host *)
+Theorem unsafe_host_rejected_h23 : forall lines mc a ls, fields_h23 lines mc a = Sent ls ->
+  exists q, to_creq_gen mc a = Sent q /\ valid_host_header (c_host q) = true /\ ls = lines q.
+Proof.
+  intros lines mc a ls. unfold fields_h23. destruct (to_creq_gen mc a) as [q| |]; try discriminate.
+  destruct (negb (is_ascii (c_host q))); [discriminate|].
+  destruct (valid_host_header (c_host q)) eqn:E; cbn [negb]; [|discriminate].
+  intros [= <-]. exists q. repeat split. exact E.
+Qed.
+
+(* before fix 962230a the forced HTTP/2 path handed an invalid method to the encoder *)
+Theorem fields_h2_pinned_refuted :
+  exists a ls, valid_method (a_method a) = false /\ fields_h2_pinned a = Sent ls /\
+               In (bs ":method", bs "GE T") ls /\ fields_h2 a = Rejected.
+Proof.
+  exists (mkA (bs "GE T") [] (bs "http://h/") [] [] [] [] [] [] [] [] BNone [] [] false). eexists.
+  split; [reflexivity|]. split; [vm_compute; reflexivity|]. split; [|vm_compute; reflexivity].
+  cbn. auto.
 Qed.
 
 Lemma ctl_value_invalid v c : In c v -> is_ctl c = true -> c <> x09 -> valid_field_value v = false.
@@ -239,6 +317,7 @@ Theorem h1_sent_inv : forall q body w, h1_head q body = Sent w ->
 Proof.
   intros q body w. unfold h1_head.
   destruct (valid_method (c_method q)); cbn [negb]; [|discriminate].
+  destruct (m_is (c_method q) "CONNECT"); [discriminate|].
   destruct (negb (is_ascii (c_host q)) || mem_byte "["%byte (c_host q)); [discriminate|].
   destruct (valid_host_header (c_host q)); cbn [negb]; [|discriminate].
   destruct (existsb is_ctl (c_path q)); [discriminate|].
